@@ -249,6 +249,7 @@ pub fn soup(rng: &mut Rng, max_frags: usize) -> GenDoc {
 
 pub const TREE_NAMES: &[&str] =
     &["div", "p", "span", "a", "b", "ul", "li", "section", "h1", "em", "x-foo", "td", "i"];
+pub const CUSTOM_NAMES: &[&str] = &["x-aa", "x-bb", "x-cc", "x-dd", "y-ee", "y-ff", "z:gg", "z:hh", "a0bc", "a7bc", "q-rs", "q-tu"];
 pub const VOID_NAMES: &[&str] = &["br", "img", "input", "hr", "meta", "link", "wbr", "area"];
 pub const TREE_ATTRS: &[&str] = &["id", "class", "href", "data-x", "title", "lang", "foo"];
 pub const TREE_VALUES: &[&str] = &[
@@ -266,6 +267,9 @@ pub struct TreeOpts {
     pub foreign: bool,
     pub text_mode_elements: bool,
     pub comments: bool,
+    /// most elements are custom elements with distinct names of equal length that the compact
+    /// tag-name hash cannot represent (they go through the string-keyed paths)
+    pub custom: bool,
 }
 
 impl Default for TreeOpts {
@@ -277,6 +281,7 @@ impl Default for TreeOpts {
             foreign: true,
             text_mode_elements: true,
             comments: true,
+            custom: false,
         }
     }
 }
@@ -300,7 +305,7 @@ fn tree_start(rng: &mut Rng, name: &str, self_close: bool) -> String {
         s.push_str(&tree_attr(rng));
     }
     if rng.chance(1, 12) {
-        s.push_str(" class=dup1 class=dup2");
+        s.push_str(if rng.bool() { " class=dup1 class=dup2" } else { " class=dup1 id=k CLASS=dup2 title='t'" });
     }
     if self_close { s.push_str("/>") } else { s.push('>') }
     s
@@ -334,7 +339,7 @@ fn tree_node(rng: &mut Rng, d: &mut GenDoc, depth: usize, o: &TreeOpts) {
         let n = rng.pick(TREE_NAMES);
         d.push(FragKind::EndTag, format!("</{n}>").as_bytes());
     } else {
-        let n = rng.pick(TREE_NAMES);
+        let n = if o.custom && rng.chance(3, 4) { rng.pick(CUSTOM_NAMES) } else { rng.pick(TREE_NAMES) };
         // self-closing syntax on an HTML element is ignored by the parser
         let sc = o.sloppy && rng.chance(1, 15);
         d.push(FragKind::StartTag, tree_start(rng, n, sc).as_bytes());
@@ -377,7 +382,7 @@ fn foreign_node(rng: &mut Rng, d: &mut GenDoc, depth: usize, o: &TreeOpts, svg: 
     let names = if svg { SVG_NAMES } else { MATHML_NAMES };
     match rng.below(10) {
         0 | 1 => d.push(FragKind::Text, b"ft"),
-        2 => d.push(FragKind::Cdata, rng.pick(&["<![CDATA[x<y>z]]>", "<![CDATA[]]>", "<![CDATA[a]]b]]>"]).as_bytes()),
+        2 => d.push(FragKind::Cdata, rng.pick(&["<![CDATA[x<y>z]]>", "<![CDATA[]]>", "<![CDATA[a]]b]]>", "<![CDATA[ 1 > 0 <b>not markup</b> ]]>", "<![CDATA[><i a=b>]]>"]).as_bytes()),
         3 | 4 => {
             let n = rng.pick(names);
             d.push(FragKind::Foreign, tree_start(rng, n, true).as_bytes());
@@ -520,7 +525,9 @@ pub fn enc_doc(rng: &mut Rng, label: &str, o: &EncOpts) -> GenDoc {
     let meta_at = if o.meta { Some(rng.below(n)) } else { None };
     for i in 0..n {
         if meta_at == Some(i) {
-            let target = rng.pick(ENCODING_LABELS);
+            // mostly supported labels; sometimes labels of encodings that are not ASCII-compatible
+            // (must be ignored in both declaration forms), the replacement encoding, junk
+            let target = if rng.chance(1, 6) { rng.pick(&["utf-16", "utf-16le", "utf-16be", "UTF-16BE", "unicode", "iso-2022-jp", "replacement", "hz-gb-2312", "bogus-label", ""]) } else { rng.pick(ENCODING_LABELS) };
             let m = match rng.below(5) {
                 0 => format!("<meta charset=\"{target}\">"),
                 1 => format!("<meta http-equiv=\"Content-Type\" content=\"text/html; charset={target}\">"),
@@ -832,7 +839,10 @@ pub const CONTENT_STRINGS: &[&str] = &[
 
 pub fn content(rng: &mut Rng) -> Content {
     let s = (rng.pick(CONTENT_STRINGS)).to_string();
-    Content { s, html: rng.bool(), stream: if rng.chance(1, 5) { rng.range(1, 3) as u8 } else { 0 }, fail_stream: false }
+    let stream = if rng.chance(1, 5) { rng.range(1, 3) as u8 } else { 0 };
+    // streamed as raw UTF-8 byte pieces (may end inside a character) one time in three
+    let utf8_chunks = if stream > 0 && rng.chance(1, 3) { rng.range(2, 5) as u8 } else { 0 };
+    Content { s, html: rng.bool(), stream, fail_stream: false, utf8_chunks }
 }
 
 /// Any document generator, mixed.
